@@ -6,7 +6,7 @@ from typing import Optional
 
 from ..core import AnalysisError, FuncInfo, Project, attr_chain, const_int, const_str, expand, unparse, walk_local
 from ..intdec import (CAT_NAMES, SPEC_CUTS, LengthFacts, category, fmt_regions, literals_compared, regions,
-                      residual, residual_multi, sample_points)
+                      residual, residual_multi, sample_points, reachable_int_literals)
 
 SUBJ = "<length>"
 
@@ -202,7 +202,7 @@ def _delegates_to(prj: Project, fi: FuncInfo, facts: LengthFacts) -> Optional[st
 def check_site(ctx, prj, fi: FuncInfo, facts: LengthFacts, spec: dict, consts=None, inst: str = ""):
     pred = facts.subject_pred(fi)
     lab = _labeller(spec["label"], pred)
-    lits = literals_compared(fi, pred, consts)
+    lits = sorted(set(literals_compared(fi, pred, consts)) | reachable_int_literals(fi, pred))
     key = fi.qual.split(":", 1)[1] + (f"<-{inst}" if inst else "")
     if not lits:
         d = _delegates_to(prj, fi, facts)
